@@ -88,14 +88,10 @@ func init() {
 	registerMapAppendFunc(tI64, tMAP, appendMap_I64_Other)
 	registerMapAppendFunc(tI64, tSET, appendMap_I64_Other)
 	registerMapAppendFunc(tI64, tLIST, appendMap_I64_Other)
-	registerMapAppendFunc(tDOUBLE, tBOOL, appendMap_I64_BOOL)
-	registerMapAppendFunc(tDOUBLE, tBYTE, appendMap_I64_I08)
-	registerMapAppendFunc(tDOUBLE, tI16, appendMap_I64_I16)
-	registerMapAppendFunc(tDOUBLE, tI32, appendMap_I64_I32)
-	registerMapAppendFunc(tDOUBLE, tI64, appendMap_I64_I64)
-	registerMapAppendFunc(tDOUBLE, tDOUBLE, appendMap_I64_I64)
-	registerMapAppendFunc(tDOUBLE, tENUM, appendMap_I64_ENUM)
-	registerMapAppendFunc(tDOUBLE, tSTRING, appendMap_I64_STRING)
+	// NOTE: double keys with scalar or string values have no cast-based fast path:
+	// ranging over a map[float64]V through a map[uint64]V type hashes keys with
+	// the wrong hash function, which loses or repeats entries while the map is growing.
+	// They use appendMapAnyAny, which iterates with the real map type.
 	registerMapAppendFunc(tDOUBLE, tSTRUCT, appendMap_I64_Other)
 	registerMapAppendFunc(tDOUBLE, tMAP, appendMap_I64_Other)
 	registerMapAppendFunc(tDOUBLE, tSET, appendMap_I64_Other)
